@@ -3,6 +3,7 @@ Proofs behind Props/C03.lean (negotiation follows the server's offers; "connecte
 negotiated).
 -/
 import Strophe.Model.ConnOps
+import Strophe.Lemmas.ConnC03I
 
 namespace Strophe.Lemmas.ConnC03
 open Strophe Strophe.Conn
@@ -21,6 +22,37 @@ def isConnectEv : Ev → Bool
 
 /-- histories that never use `xmpp_send_raw` (see known finding D13) -/
 def noSendRaw (ops : List Op) : Prop := ∀ op ∈ ops, match op with | .uraw _ => False | _ => True
+
+/-! ### reading the theorems off the invariant (Lemmas/ConnC03A–I.lean) -/
+
+theorem cfgRes_eq (jid : Option Bytes) : cfgRes jid = configuredResource jid := rfl
+theorem isConnEv_eq : isConnEv = isConnectEv := by funext e; cases e <;> rfl
+
+theorem opOk_of_userOps {ops : List Op} (hu : userOps ops) :
+    ∀ op ∈ ops, OpOk (fun it => it.isUserItem = true) False op := by
+  intro op hop; have := hu op hop
+  cases op <;> first | trivial | exact this | exact ⟨this, id⟩
+
+theorem opOk_of_noSendRaw {ops : List Op} (hn : noSendRaw ops) :
+    ∀ op ∈ ops, OpOk (fun _ => True) True op := by
+  intro op hop; have := hn op hop
+  cases op <;> first | trivial | exact this.elim
+
+theorem opOk_any (ops : List Op) : ∀ op ∈ ops, OpOk (fun _ => True) False op := by
+  intro op _; cases op <;> first | trivial | exact ⟨trivial, id⟩
+
+/-- library-owned or user-item: what every written element satisfies in a `userOps` history -/
+theorem tx_lib (jid pass : Option Bytes) (cert : Bool) (flags : Nat) (ops : List Op) (hu : userOps ops) :
+    ∀ r ∈ (exec (fresh jid pass cert flags) ops).tx,
+      (r.item.isUserItem = true ∨ LibOk jid r.item r.owner r.snap) ∧ (isHdrFrom r.item → r.sec = true) := by
+  obtain ⟨p, _, hi⟩ := Good.exec (jid := jid) ops (opOk_of_userOps hu) (good_fresh jid pass cert flags)
+  intro r hr
+  obtain ⟨hok, hsec, _⟩ := hi.q.tx_ok r hr
+  by_cases ho : r.owner = .user
+  · have := (hok.1 ho).1
+    refine ⟨Or.inl this, fun hh => ?_⟩
+    obtain ⟨_, _, _, e⟩ := hh; rw [e] at this; cases this
+  · exact ⟨Or.inr (hok.2 ho), hsec ho⟩
 
 theorem requests_answer_offers (jid pass : Option Bytes) (cert : Bool) (flags : Nat) (ops : List Op)
     (hu : userOps ops) :
